@@ -19,9 +19,12 @@ EXPLANATION = (
     'afterwards unless requested, offset counted over yielded entries only, nothing read once the limit is reached; '
     'value_is_empty and Record::is_empty test the hash against Hash::EMPTY, KeyFilter/AuthorFilter::matches have the '
     'documented meaning; (R6) RecordsByKeyRange::next_filtered evaluated on short index sequences: an index id whose record'
-    ' is gone is skipped and the scan continues, a rejected id is not looked up, errors are reported; (R7) the index writer: entry_put evaluated on {author unknown, newer, equal, older than the head} x '
-    '{live entry, deletion marker} writes the (namespace, key, author) index row for every entry (shared with C18.R2). NOT decided: exact '
-    'result sets for all states.'
+    ' is gone is skipped and the scan continues, a rejected id is not looked up, errors are reported; (R7) the index '
+    'writer: entry_put evaluated on {author unknown, newer, equal, older than the head} x {live entry, deletion marker} '
+    'writes the (namespace, key, author) index row for every entry (shared with C18.R2). The latest-per-key selection ranks'
+    ' entries with equal timestamps by what is left of them (content hash, author), so that the choice does not depend on '
+    'the direction of the scan; the author filter of such a query applies to the selected entry (after the grouping), as '
+    'the property text and the note on store::Query say. NOT decided: exact result sets for all states.'
 )
 ASSUMPTIONS = ["redb range iteration order = tuple key order", "tables identified by type"]
 
